@@ -84,6 +84,10 @@ def _cases(rng, quick, gr):
         subs = {os.path.join(d, "sub.xbb"): "name sub\nversion 1.0\nVac | 4\nBSgate(0.5, 0.1) | [4, 7]\n",
                 os.path.join(d, "tsub.xbb"): "name tsub\nversion 1.0\nRgate({a}) | 1\nSgate({a}, {b}) | [0, 1]\n",
                 os.path.join(d, "one.xbb"): "name one\nversion 1.0\nVac | 9\n",
+                # template parameters spelt like p-array names, like registers' neighbours, like functions (parameters all the same)
+                os.path.join(d, "psub.xbb"): "name psub\nversion 1.0\nRgate({p1}) | 0\n",
+                os.path.join(d, "psub2.xbb"): "name psub2\nversion 1.0\nSgate({p0}, {p12}) | [0, 1]\n",
+                os.path.join(d, "nsub.xbb"): "name nsub\nversion 1.0\nSgate({q}, {sinx}) | [0, 1]\nRgate({pi2}) | 1\n",
                 os.path.join(d, "gap.xbb"): "name gap\nversion 1.0\nRgate(0.5) | 0\nBSgate(0.5, 0.1) | [0, 2]\n"}
         for pth, txt in subs.items():
             with open(pth, "w") as f:
@@ -105,6 +109,8 @@ def _cases(rng, quick, gr):
                  "sub(a=1) | [2, 3]", "one(x=0.5) | 3", "tsub | [2, 3]", "tsub(a=1) | [2, 3]", "tsub(b=1) | [2, 3]",
                  "tsub(a=1, b=2, c=3) | [2, 3]", "tsub(a=1, c=2) | [2, 3]", "tsub(1, 2) | [2, 3]", "tsub(a=1, b=2) | [2, 3, 3]",
                  "tsub(a=1, b=2) | 2",
+                 "psub | 2", "psub(p1=0.3) | 2", "psub(p0=0.3) | 2", "psub(p1=0.3, p2=1) | 2", "psub2 | [2, 3]", "psub2(p0=1) | [2, 3]", "psub2(p0=1.5, p12=2.5) | [2, 3]",
+                 "psub2(p12=2) | [2, 3]", "nsub | [2, 3]", "nsub(q=1, sinx=2) | [2, 3]", "nsub(q=1.5, sinx=2.5, pi2=3.5) | [2, 3]", "nsub(q=1, sinx=2, pi=3) | [2, 3]",
                  # as many modes as the LARGEST mode number of the included program suggests (its modes are not 0..n-1)
                  "gap | [4, 5, 6]", "gap | [0, 1, 2]", "sub | [0, 1, 2, 3, 4, 5, 6, 7]", "one | [0, 1, 2, 3, 4, 5, 6, 7, 8, 9]", "gap | 3",
                  "for int i in 0:2\n    sub | [i, i + 1, i + 1]", "for int i in 0:2\n    tsub(a=i) | [i, i + 1]"]
